@@ -61,6 +61,11 @@ CLAIMS["C10"] = dict(
   text="The six (zero constant, scale unit) pairs are extracted from Degree::name_base_scale and their exact values folded from definitions.units must equal the textbook affine constants (and be temperatures with non-zero scale); the suffix arm is x*lookup(scale)+lookup(zero) and the conversion arm (v-lookup(zero))/lookup(scale), each taking both names from one name_base_scale call and using Number's exact operators (no float-introducing site), so for every rational x the two maps are inverses and cross-scale conversion equals the textbook formula; the suffix is gated on dimensionless operands, the conversion on the conformance test, compound targets refuse scales; every variant has lexer spellings, no spelling is shared, Display prints a spelling of its own variant. This decides the property for all x and all 36 pairs given exact Number arithmetic (C01).",
   note="Trusted: tables/temperature_textbook.json (reviewed by hand), the data-file reader/folder, exactness of num-rational.",
   design_ref="DESIGN.md section 4, C10")
+CLAIMS["C17"] = dict(
+  technique="HIR statement-shape and arm-table rules for the UnitsFor/Factorize arms and commands::factorize, sibling agreement of the quantity-name shortcut, ordering-consistency rule for dedup",
+  text="Decides on /repo's current tree the filter, base-case and dedup structure: the quantity-name shortcut is the same loop over registry.quantities in both commands and returns the dimensionality paired with exactly that name; `units for` considers every registered unit, lists one only behind `val.unit == unit.unit`, skips only pure aliases (units without a definition are kept), appends the base unit only for exponent one, sorts before grouping and flushes on category change and after the loop; factorize returns the empty product only for a dimensionless value, ties pushed name, divisor and recursive quotient to one (unit, name) pair, and dedup() runs over vectors sorted by a total order consistent with equality (Factors' PartialOrd is the derived/full order), so no duplicate survives. Soundness/completeness over the ~4000 database units is data and not claimed.",
+  note="Trusted: the extractor's reading of today's loop shapes (an iterator-adaptor rewrite is reported as anchor-lost, not passed); BinaryHeap ordering through PartialOrd.",
+  design_ref="DESIGN.md section 4, C17")
 NA = {
  "C05": "digit strings, recurring-block offsets and the 1-ulp truncation bound are number-theoretic facts about runtime values of p/q and the base; no structural clause is a genuine necessary condition (DESIGN.md section 4, C05)",
 }
